@@ -135,7 +135,8 @@ bufferevent_socket_outbuf_cb(struct evbuffer *buf,
 
 	if (cbinfo->n_added &&
 	    (bufev->enabled & EV_WRITE) &&
-	    !event_pending(&bufev->ev_write, EV_WRITE, NULL) &&
+	    (!event_pending(&bufev->ev_write, EV_WRITE, NULL) ||
+		(cbinfo->orig_size == 0 && !bufev_p->connecting)) &&
 	    !bufev_p->write_suspended) {
 		/* Somebody added data to the buffer, and we would like to
 		 * write, and we were not writing.  So, start writing. */
@@ -252,6 +253,13 @@ bufferevent_writecb(evutil_socket_t fd, short event, void *arg)
 		/* Note that we only check for event==EV_TIMEOUT. If
 		 * event==EV_TIMEOUT|EV_WRITE, we can safely ignore the
 		 * timeout, since a read has occurred */
+		if (!bufev_p->connecting &&
+		    !evbuffer_get_length(bufev->output)) {
+			/* Nothing is waiting to be written, so the write
+			 * timeout does not apply. */
+			event_del(&bufev->ev_write);
+			goto done;
+		}
 		what |= BEV_EVENT_TIMEOUT;
 		goto error;
 	}
